@@ -18,7 +18,9 @@ def _shard(args):
     traces, scripts = [], {}
     for tid, seed, prog, variant, nsteps in specs:
         src = layouts.variant(PROGRAMS[prog], variant, seed)
-        tr = c02_hist.run_lockstep(rec, intern, tid, seed, src, nsteps, npat)
+        tight = variant in (2, 8)  # redundant-parentheses / tight layouts: exercise par()/unpar() much more
+        tr = c02_hist.run_lockstep(rec, intern, tid, seed, src, nsteps, npat, misc_p=0.5 if tight else 0.2,
+                                   unpar_p=0.7 if tight else 0.3)
         scripts[tid] = {'driver': 'c02_lockstep', 'prog': prog, 'variant': variant, 'seed': seed, 'nsteps': nsteps,
                         'npat': npat, 'script': tr.pop('script')}
         traces.append(tr)
